@@ -148,7 +148,7 @@ pub fn teardown_trial(idx: usize, seed: u64) -> ScenarioResult {
         for l in &lines {
             let took: u64 = field(l, "took_ms=").parse().unwrap_or(0);
             let bound: u64 = field(l, "idle_bound_ms=").parse().unwrap_or(0);
-            let rest_ok = field(l, "returned=") == "true" && field(l, "closed=") == "true" && field(l, "peers=") == "0" && field(l, "subscribe_err=") == "true" && field(l, "weak_dead=") == "true" && took <= bound + 1_000;
+            let rest_ok = field(l, "returned=") == "true" && field(l, "closed=") == "true" && field(l, "peers=") == "0" && field(l, "subscribe_err=") == "true" && field(l, "weak_dead=") == "true";
             if !rest_ok {
                 other.push(l.to_string());
             } else if field(l, "rebind_ok=") == "false" {
